@@ -75,6 +75,19 @@ CLAIMED['C18'] = {
     'note': 'Bounded stand-in, never counted as proved. Split independence is read as independence of Ok/Err and of the set of returned morphisms (see evidence assumptions).',
     'technique': 'bounded native execution of an executable contract on the real function (labelled bounded)',
 }
+CLAIMED['C01'] = {
+    'category': 'exploration',
+    'text': 'Bounded and partial, on the modules the compiler (built from the current tree) emits for the probe theories: after every close() (and every close_until() that returns false) in every '
+            'explored history, every flat rule of the program holds in the model -- for every assignment of canonical elements under which all premise atoms hold (matched against the '
+            'iterators), every conclusion holds (the tuple is reported by the point query, the two elements are equal, the function is defined), and every function is single-valued. The rules '
+            'are the flat rules the compiler itself prints above each emitted rule function (one per sub-rule family, plus the implicit functionality rules): the check covers premise sorting, '
+            'index selection, RAM lowering, code generation, the semi-naive loop and the runtime, not the flattening front end. Neither verifier can take the generated loop or the rule '
+            'functions (extern "Rust", runtime iterators), so this is the bounded stand-in for the postcondition of close().',
+    'design_ref': '§6 C01',
+    'note': 'Bounded stand-in, labelled exploration, never counted as proved. Programs are sampled (7 probes, 43 flat rules); source-level rule semantics (nested terms, premise equalities) are not '
+            're-derived -- the flat rule is trusted as the statement of the rule.',
+    'technique': 'bounded native execution of an executable postcondition of the generated close on emitted probe modules (labelled bounded)',
+}
 CLAIMED['C03'] = {
     'category': 'exploration',
     'text': 'Bounded, on the modules the compiler (built from the current tree) emits for the probe theories: the property is decided as a postcondition of the generated close() -- '
@@ -114,7 +127,8 @@ CLAIMED['C11'] = {
     'category': 'exploration',
     'text': 'Bounded and partial: the real diagnostic renderer (source_display.rs, Location::intersect and whipe_comments cut from their files) is run on every text of <= 5 '
             '(quick) / 6 (thorough) symbols over {a, space, /, LF, CRLF, e-acute} x every location the parse-error conversion can produce; it must not panic, must '
-            'name the line containing the position and print only complete input lines. The parser and the semantic passes are not covered.',
+            'name the line containing the position and print only complete input lines. The parser and the semantic passes are not covered. '
+            'Verus additionally proves Location::intersect (the interval arithmetic under the renderer) against interval intersection (unit LOC).',
     'design_ref': '§5.5, §6 C11',
     'note': 'Bounded stand-in, never counted as proved; str/format! code is outside Verus. Found F4 (fixed in bbcda61).',
     'technique': 'bounded native execution of an executable contract on the real functions (labelled bounded)',
@@ -141,8 +155,18 @@ CLAIMED['C05']['text'] = CLAIMED['C05']['text'] + ' Unit GEN additionally proves
     'new_ returns a fresh singleton element, insert_ makes the tuple visible to the point query immediately for every argument of the same classes, '\
     'the evaluation function returns Some(y) exactly when the row is present (real text, closures with `?`), define_ returns the existing value or a fresh element.'
 
+CLAIMED['C20'] = {
+    'category': 'exploration',
+    'text': 'Bounded: the whole sweep of the modules emitted for the probe theories (tens of thousands of API call sequences) is executed twice in two separate processes and a digest of '
+            'everything observable -- element ids returned, the output of every iterator in iteration order, query results, after every call -- must be identical. No contract can state '
+            '"does not depend on addresses, hashing seeds, time or scheduling" for generated loop code that no verifier takes; this is the bounded stand-in. (Corollary of the proof units: '
+            'every runtime operation under contract equals a mathematical function of its abstract arguments.)',
+    'design_ref': '§6 C20',
+    'note': 'Bounded stand-in, labelled exploration, never counted as proved. Time and thread scheduling are not varied.',
+    'technique': 'bounded native execution (two processes) of the generated API on emitted probe modules, transcripts compared (labelled bounded)',
+}
+
 NOT_APPLICABLE = {
-    'C01': 'postcondition of the generated close_until loop and rule functions (extern "Rust", runtime iterators, string-templated generator): no function on that path can carry a contract Verus or Kani accepts (DESIGN §6)',
     'C02': 'needs the denotation of generated rule functions and define_*; not expressible as a contract within reach (DESIGN §6)',
     'C09': '"rustc accepts the emitted text" is not a postcondition over Display impls; would be translation validation, another family',
     'C10': 'the static checks are ~300 eqlog rules interpreted by generated code; there is no Rust function whose contract is the reference semantics',
@@ -151,7 +175,6 @@ NOT_APPLICABLE = {
     'C15': 'couples a Datalog check, the emitted define_* set and <enum>_cases iterator chains; none within reach',
     'C17': 'recompute_model_indices is generated loop code over iter_restrictions_mut/LazyCell/mapped; its runtime ingredients are covered under C08/C18',
     'C19': 'statement about two emitted texts and a linker boundary; nothing to annotate',
-    'C20': 'hyperproperty over runs of generated code and iterators that are not under contract',
     # not yet built (will move to CLAIMED as units land)
 }
 
